@@ -929,7 +929,7 @@ package rux
 //
 // coversAll / onlyMatching: the allowed list is exactly the set of other methods whose tables match the path
 // (opaque for QuickMatch, which only forwards them).
-//@ opaque coversAll(r *Router, allowed []string, method string, p string) bool = forall x string :: isMethod(x) && x != method && tm(r, x, p) ==> (exists q int :: 0 <= q && q < len(allowed) && allowed[q] == x)
+//@ opaque coversAll(r *Router, allowed []string, method string, p string) bool = forall x string :: isMethod(x) && x != method && tm(r, x, p) ==> (exists q int by iterord(x) :: 0 <= q && q < len(allowed) && allowed[q] == x)
 //@ opaque onlyMatching(r *Router, allowed []string, method string, p string) bool = forall q int :: 0 <= q && q < len(allowed) ==> isMethod(allowed[q]) && allowed[q] != method && tm(r, allowed[q], p)
 //@ func (*Router).findAllowedMethods [C06, C13, C03, C07]
 //@   reveals coversAll, onlyMatching
